@@ -611,4 +611,125 @@ theorem json_label_v6_not_reparsed (h : Str) (p : Nat) (hv : V6Like h) (d : Int)
     have := hv.1
     simp; omega
 
+/-! ### whole runs: single target -/
+
+/-- the report the tool gives for `(h, p)` when the connection attempt ended with `err` -/
+def reportOf (h : Str) (p : Int) (err : Option ConnErr) : Report :=
+  { host := h, port := p, text := labelText h p, verbose := labelVerbose h p, json := labelJson h p, err := err }
+
+theorem auditTarget_ok (pref : List Nat) (h : Str) (p : Int) (res : Resolver) (up : AddrInfo → Bool) (hp : InRange p) :
+    auditTarget pref h p res up = ((dial pref h p res up).1, .ok (reportOf h p (dial pref h p res up).2)) := by
+  simp [auditTarget, checkPort_ok p hp, reportOf]
+
+/-- **named_target_dialled**: for every documented spelling `s` of `(h, e)`, every valid `-p q` (or none)
+    and every `-4`/`-6` combination: the run resolves exactly `h` with the denoted port and the
+    recorded family argument, dials at most the first address of `_resolve`'s order (`first_only`),
+    and — if the connection succeeds — reports on host `h`, port `p` with the labels of `(h, p)` -/
+theorem named_target_dialled (s h : Str) (e : Option Nat) (q : Option Int) (flags : List Nat) (res : Resolver)
+    (up : AddrInfo → Bool) (hs : Spelled s h e) (hq : ∀ v, q = some v → InRange v)
+    (hp : InRange (portOf e (optDefault q))) :
+    let p := portOf e (optDefault q)
+    let d := dial (ipPref flags) h p res up
+    mainRun (single s q flags) res up =
+      (d.1, match d.2 with
+            | some _ => .error (.sysExit CONNECTION_ERROR)
+            | none => .ok [.ok (reportOf h p none)]) := by
+  intro p d
+  unfold mainRun
+  rw [cmdline_port_default s h e q flags hs hq hp]
+  simp only [runConf, Bool.false_eq_true, if_false, List.length_nil, Nat.lt_irrefl, gt_iff_lt]
+  rw [auditTarget_ok _ h p res up hp]
+  simp only [reportOf]
+  cases hd : (dial (ipPref flags) h p res up).2 with
+  | none => simp [d, p]
+  | some c => simp [d, p]
+
+/-! ### ports outside 1..65535 -/
+
+/-- **port_range** (single target): an out-of-range port written in the target is rejected before any
+    name resolution or connection -/
+theorem port_range_target (s h : Str) (p : Nat) (q : Option Int) (flags : List Nat) (res : Resolver) (up : AddrInfo → Bool)
+    (hs : Spelled s h (some p)) (hq : ∀ v, q = some v → InRange v) (hp : ¬ InRange p) :
+    mainRun (single s q flags) res up = ([], .error .value) := by
+  unfold mainRun
+  rw [cmdline_bad_target_port s h p q flags hs hq hp]
+
+/-- **port_range** (`-p`): an out-of-range option is rejected before any name resolution or connection,
+    whatever else is on the command line (single target, targets file, client audit) -/
+theorem port_range_option (a : Args) (v : Int) (res : Resolver) (up : AddrInfo → Bool) (hq : a.oport = some v) (hv : ¬ InRange v) :
+    ∃ e, mainRun a res up = ([], .error e) := by
+  obtain ⟨e, he⟩ := cmdline_bad_option a v hq hv
+  exact ⟨e, by unfold mainRun; rw [he]⟩
+
+theorem dial_ports (pref : List Nat) (h : Str) (p : Int) (res : Resolver) (up : AddrInfo → Bool) :
+    ∀ ev ∈ (dial pref h p res up).1, ∀ h' p' f, ev = Event.resolve h' p' f → h' = h ∧ p' = p := by
+  intro ev hev h' p' f he
+  rw [first_only] at hev
+  subst he
+  simp only [List.mem_cons] at hev
+  rcases hev with hev | hev
+  · injection hev with h1 h2 h3; exact ⟨h1, h2⟩
+  · exfalso
+    split at hev
+    · simp at hev
+    · split at hev <;> simp at hev
+
+theorem auditTarget_ports (pref : List Nat) (h : Str) (p : Int) (res : Resolver) (up : AddrInfo → Bool) :
+    ∀ ev ∈ (auditTarget pref h p res up).1, ∀ h' p' f, ev = Event.resolve h' p' f → InRange p' := by
+  intro ev hev h' p' f he
+  by_cases hp : InRange p
+  · rw [auditTarget_ok pref h p res up hp] at hev
+    have := (dial_ports pref h p res up ev hev h' p' f he).2
+    rw [this]; exact hp
+  · simp [auditTarget, checkPort_bad p hp] at hev
+
+theorem worker_ports (pref : List Nat) (res : Resolver) (up : AddrInfo → Bool) (t : Str × Int) :
+    ∀ ev ∈ (worker pref res up t).1, ∀ h' p' f, ev = Event.resolve h' p' f → InRange p' := by
+  intro ev hev h' p' f he
+  unfold worker at hev
+  by_cases hp : InRange t.2
+  · rw [checkPort_ok t.2 hp] at hev
+    exact auditTarget_ports pref t.1 t.2 res up ev hev h' p' f he
+  · rw [checkPort_bad t.2 hp] at hev
+    simp at hev
+
+theorem runConf_ports (c : Conf) (res : Resolver) (up : AddrInfo → Bool) :
+    ∀ ev ∈ (runConf c res up).1, ∀ h p f, ev = Event.resolve h p f → InRange p := by
+  intro ev hev h p f he
+  unfold runConf at hev
+  by_cases hcl : c.clientAudit = true
+  · simp [hcl] at hev
+  · simp only [hcl, Bool.false_eq_true, if_false] at hev
+    by_cases hl : c.targetList.length > 0
+    · simp only [hl, if_true] at hev
+      cases hpa : parseAll c.port c.targetList with
+      | error e => rw [hpa] at hev; simp at hev
+      | ok ts =>
+        rw [hpa] at hev
+        simp only [List.map_map, List.mem_flatten, List.mem_map, Function.comp] at hev
+        obtain ⟨l, ⟨t, _, hl⟩, hin⟩ := hev
+        subst hl
+        exact worker_ports c.pref res up t ev hin h p f he
+    · simp only [hl, if_false] at hev
+      have key := auditTarget_ports c.pref c.host c.port res up ev
+      cases hat : auditTarget c.pref c.host c.port res up with
+      | mk evs r =>
+        rw [hat] at hev key
+        cases r with
+        | error e => exact key hev h p f he
+        | ok r => exact key hev h p f he
+
+/-- **port_range** (every input): whatever the command line and the targets file contain — documented
+    spellings or not — no name resolution is ever attempted with a port outside 1..65535 (and every
+    connection is preceded by such a resolution: `first_only`) -/
+theorem resolve_port_in_range (a : Args) (res : Resolver) (up : AddrInfo → Bool) :
+    ∀ ev ∈ (mainRun a res up).1, ∀ h p f, ev = Event.resolve h p f → InRange p := by
+  intro ev hev h p f he
+  unfold mainRun at hev
+  cases hc : cmdline a with
+  | error e => rw [hc] at hev; simp at hev
+  | ok c =>
+    rw [hc] at hev
+    exact runConf_ports c res up ev hev h p f he
+
 end SshAudit.C18
